@@ -390,15 +390,15 @@ def _check_for_modified_notes(
         if note.modify_date != today and note_has_changed:
             note.modify_date = today
             modify_short_date = zdt.to_short_date_spec(dt.date.today())
-            # If the modify date is the same as the create date, then no modify
-            # date spec should exist yet...
             assert old_note is not None
-            if old_note.modify_date == note.create_date:
-                old_body = f"{note.body.lstrip()}"
-            # Otherwise, we need to remove the old modify date spec before
-            # adding the new one.
-            else:
-                old_body = " ".join(note.body.lstrip().split(" ")[1:])
+            # If the note's text starts with a modify date spec, we need to
+            # remove it before adding the new one. We look at the text itself
+            # (NOT at the old note's dates) since the user might have removed
+            # the old spec or typed one that equals the create date.
+            body_words = note.body.lstrip().split(" ")
+            if zdt.is_short_date_spec(body_words[0]):
+                body_words.pop(0)
+            old_body = " ".join(body_words)
             note.body = f"{modify_short_date} {old_body}"
             modified_notes.append(note)
     if modified_notes:
